@@ -46,6 +46,10 @@ func (d *Decoder) decodeTypedUint() (Type, uint64, error) {
 		nfollow = 4
 	case 27:
 		nfollow = 8
+	case 28, 29, 30, 31:
+		// 28-30 are reserved and 31 is the indefinite-length / "break" marker;
+		// neither is a valid argument for the definite-length items decoded here.
+		return t, 0, fmt.Errorf("cbor: Unsupported additional information value %d", ai)
 	default:
 		nfollow = 0
 	}
